@@ -10,6 +10,7 @@ import (
 	"context"
 	"crypto/sha1"
 	"crypto/tls"
+	"crypto/x509"
 	"fmt"
 	"io"
 	"log"
@@ -57,6 +58,10 @@ type spec struct {
 	// wss: the session dials wss://host<id>.c19.test with the library's DEFAULT TLS configuration (no TLSConfig,
 	// no TLSClient) against a crypto/tls server holding that host's certificate (ws.Upgrader / ws.Dialer sessions only)
 	wss bool
+	// tlsMode (wss sessions): 0, 1 the library's default TLS configuration; 2 a Dialer.TLSConfig of the session's own
+	// that trusts the private CA; 3 one that trusts NOBODY (empty RootCAs): its handshake must fail, however many
+	// sessions to the same host name trusted the server before it
+	tlsMode int
 }
 
 var errInjectedFault = fmt.Errorf("c19: injected connection write fault")
@@ -539,6 +544,12 @@ func runSession(s spec) *transcript {
 	target := "ws://c19.example/s"
 	if s.wss {
 		target = "wss://" + hostName(s.id) + "/s"
+		switch s.tlsMode {
+		case 2:
+			d.TLSConfig = &tls.Config{RootCAs: caPool}
+		case 3:
+			d.TLSConfig = &tls.Config{RootCAs: x509.NewCertPool()}
+		}
 	}
 	if s.client == 1 {
 		dd := wsutil.DebugDialer{Dialer: d, OnRequest: func(p []byte) { t.add("C request %d bytes", len(keyless(p))) }, OnResponse: func(p []byte) {}}
@@ -855,6 +866,7 @@ func specsFor(c *mon.C, n int, mix int) []spec {
 		}
 		if s.server == 0 && i%3 != 2 {
 			s.wss = true // most ws.Upgrader sessions run over TLS with the library's default client configuration
+			s.tlsMode = int(s.seed+int64(s.id)) % 4
 		}
 		if s.traffic == 0 && i%7 == 2 && n > 4 {
 			s.fault, s.faultAt = 3, 1+int(s.seed)%(s.nmsg-1) // its client sends invalid text
@@ -892,7 +904,7 @@ func subSessions() mon.Sub {
 			pool.Configure(true, pool.ReuseLIFO, false, true)
 			alone := make([]*transcript, n)
 			for i, s := range specs {
-				k := fmt.Sprintf("%d/%d/%d/%d/%d/%d@%d", s.seed, s.server, s.client, s.traffic, s.nmsg, s.fault, s.faultAt) + fmt.Sprint(s.id%2, s.id, s.wss)
+				k := fmt.Sprintf("%d/%d/%d/%d/%d/%d@%d", s.seed, s.server, s.client, s.traffic, s.nmsg, s.fault, s.faultAt) + fmt.Sprint(s.id%2, s.id, s.wss, s.tlsMode)
 				baseMu.Lock()
 				b := baseline[k]
 				baseMu.Unlock()
@@ -951,6 +963,14 @@ func subSessions() mon.Sub {
 					c.Fail(fmt.Sprintf("transcript/traffic%d", specs[i].traffic), "a session observed different results when run concurrently with others than when run alone: "+specs[i].String(),
 						map[string]interface{}{"session": specs[i].String(), "n": n, "gomaxprocs": gp, "mix": mix, "alone_client": ac, "together_client": tc, "alone_server": as, "together_server": ts})
 					return
+				}
+				if specs[i].wss && specs[i].tlsMode == 3 {
+					// a session whose own TLS configuration trusts nobody: it never gets past the TLS handshake
+					if !strings.Contains(strings.Join(tc, "\n"), "unknown authority") {
+						c.Fail("tls/own-configuration-not-applied", "a session whose Dialer.TLSConfig trusts no authority completed the TLS handshake: "+specs[i].String(), map[string]interface{}{"client": tc, "server": ts})
+						return
+					}
+					continue
 				}
 				if specs[i].fault != 0 {
 					faulty++
